@@ -1,7 +1,6 @@
 (* Exec.CancelProofs -- the executor side of C08 (cancel stops the named tasks
    and nothing else), over the same model and by the same projection. *)
 From Coq Require Import ZArith List Bool Lia.
-Set Default Timeout 60.
 From RP Require Import Common.Eqb Exec.Model Exec.Oracle Exec.Local Exec.LocalProofs Exec.Proj Exec.ProjProofs Exec.WfProofs Exec.Proofs.
 Import ListNotations.
 Local Open Scope Z_scope.
